@@ -211,13 +211,15 @@ func (env *Env) ident(name string) (*Term, types.Type) {
 	if l, ok := env.lets[name]; ok {
 		return env.eval(l)
 	}
-	if v, ok := env.vars[name]; ok {
-		return v.t, v.ty
-	}
-	if env.fr != nil && env.at != nil {
+	// inside a loop clause a name means the variable's current value (the header phi when the
+	// loop assigns it); under old() it means the value at function entry
+	if env.fr != nil && env.at != nil && !env.inOld {
 		if t, ty, ok := env.fr.resolveLocal(name, env); ok {
 			return t, ty
 		}
+	}
+	if v, ok := env.vars[name]; ok {
+		return v.t, v.ty
 	}
 	if g, ok := env.fc.eng.contracts.ghosts[name]; ok {
 		return env.fc.get(env.state(), "ghost:"+name, g.sort), nil
